@@ -68,6 +68,11 @@ class SText(Sym):
         """Sum of the widths of the first k characters (str texts)."""
         return mk_int(self.wsum(V._z(k) + V._z(self.offset)))
 
+    def raw(self, zi):
+        """Element zi as a bare z3 term (a Char / an Int), without the side facts `get` assumes — for use under
+        a quantifier (text equality)."""
+        return self.f(zi + V._z(self.offset))
+
     def slice(self, lo, hi):
         t = SText.__new__(SText)
         t.__dict__.update(self.__dict__)
@@ -80,14 +85,18 @@ class SText(Sym):
 
 
 class TextShape(S.Shape):
-    def __init__(self, kind):
+    def __init__(self, kind, monotone_widths=True):
+        """monotone_widths=False: leave out the quantified monotonicity fact about the width prefix sums — for
+        contracts that speak about offsets and contents only (C10); their failing obligations then come back
+        `sat` with a model instead of `unknown`."""
         self.kind = kind
+        self.monotone_widths = monotone_widths
 
     def fresh(self, st, hint):
         n = st.fresh_int(hint + "_len")
         st.assume(n.e >= 0)
         t = SText(self.kind, n, st.fresh_name(hint))
-        if self.kind == "str":
+        if self.kind == "str" and self.monotone_widths:
             # widths are >= 0, so the prefix sums are monotone (a consequence of the defining equation,
             # stated once as a quantified fact because its proof would need induction)
             i, j = z3.Ints(f"{t.name}$i {t.name}$j")
@@ -155,6 +164,9 @@ class SView(_Derived):
     def W(self, k):
         return self.base.W(self.lo + k)
 
+    def raw(self, zi):
+        return self.base.raw(V._z(self.lo) + zi)
+
 
 class SConcat(_Derived):
     def __init__(self, a, b):
@@ -169,6 +181,10 @@ class SConcat(_Derived):
         a, b = self.a, self.b
         la = a.length
         return V.ite(V._cmp("<=", k, la), a.W(k) - a.W(0), a.W(la) - a.W(0) + b.W(k - la) - b.W(0))
+
+    def raw(self, zi):
+        la = V._z(self.a.length)
+        return z3.If(zi < la, self.a.raw(zi), self.b.raw(zi - la))
 
 
 class SConst(_Derived):
@@ -192,6 +208,20 @@ class SConst(_Derived):
         r = self._elem(n - 1)
         for j in range(n - 2, -1, -1):
             r = V.ite(V._cmp("<=", i, j), self._elem(j), r)
+        return r
+
+    def raw(self, zi):
+        n = len(self.value)
+
+        def el(j):
+            e = self._elem(j)  # chr_of asserts ORD(CHR(k)) == k as a ground fact (distinct literals stay distinct)
+            return e.e if isinstance(e, SOpaque) else z3.IntVal(e)
+
+        if n == 0:
+            return el0(self.kind)
+        r = el(n - 1)
+        for j in range(n - 2, -1, -1):
+            r = z3.If(zi <= j, el(j), r)
         return r
 
     def W(self, k):
@@ -221,6 +251,13 @@ class SRepeat(_Derived):
 
     def W(self, k):
         return k * char_width(self.unit.get(0))
+
+    def raw(self, zi):
+        return self.unit.raw(z3.IntVal(0))
+
+
+def el0(kind):
+    return z3.IntVal(0) if kind == "bytes" else _CHR(z3.IntVal(0))
 
 
 def as_text(v):
@@ -261,12 +298,17 @@ def text_eq(a, b):
     for x, y in ((a, b), (b, a)):
         if isinstance(x.length, int):
             return V.both(V._cmp("==", y.length, x.length), *[elem_eq(x.get(j), y.get(j)) for j in range(x.length)])
-    return V.both(V._cmp("==", la, lb), V.forall(0, la, lambda j: elem_eq(a.get(j), b.get(j))))
+    st = cur()
+    j = z3.Int(st.fresh_name("q"))
+    return V.both(V._cmp("==", la, lb), mk_bool(z3.ForAll([j], z3.Implies(z3.And(0 <= j, j < V._z(la)), a.raw(j) == b.raw(j)))))
 
 
 def text_has(t, elem):
     """`elem in t` for a one-element needle: some position of t holds that element."""
-    return V.neg(V.forall(0, t.length, lambda j: V.neg(elem_eq(t.get(j), elem))))
+    st = cur()
+    j = z3.Int(st.fresh_name("q"))
+    e = elem.e if isinstance(elem, SOpaque) else V._z(elem)
+    return mk_bool(z3.Exists([j], z3.And(0 <= j, j < V._z(t.length), t.raw(j) == e)))
 
 
 def xcheck_derived_texts():
